@@ -12,13 +12,13 @@ use std::rc::Rc;
 pub const DEF: PropDef = PropDef {
     id: "C20",
     level: "exploration",
-    rule: "a corpus of programs (succeeding, failing at parse time on various lines, failing at run time after k lines of output, failing with messages that quote values of 60..5000 characters / elements (ASCII and multi-byte), reading input, printing multi-line strings, building dictionaries, stray break / continue / return at top level followed by further blocks, several lint diagnostics per line in both name orders) x 7 standard-input contents (empty, one line, several lines, no final newline, non-ASCII, a line that is not valid UTF-8, leading blank lines) x sub-commands exec (separate pipes and stdout+stderr merged into one pipe), lint, parse; plus 14 file forms (a said text of 8 KiB stretches between line breaks, leading blank lines, string constants with backticks, missing final newline, CRLF, byte-order mark, multi-line strings, 3000 lines (more output than a pipe buffer) with and without a final runtime error) under 12 file names (blanks, non-ASCII, NBSP, tab, apostrophe, no / double / upper-case extension, hidden, nested directories, a directory named like an option) x 4 sub-command modes; plus usage errors (unknown sub-command, missing argument, missing file, directory as file) and dictionary programs run as separate processes under 8 hash seeds (LD_PRELOAD getrandom shim); oracle (independent of src/cli): stdout equals what frontend::parser::parse + exec::exec_using write for the same text and input; `parse` prints the pretty Debug tree of the library's parse; `lint` prints one line per library diagnostic (its line and issue) followed by one tab-indented line per suggestion and nothing else; errors go to stderr as `<prefix naming parse/runtime>: <library message>`, on the merged pipe the error line comes after all output, usage errors exit non-zero; non-trivial = every case (a process is spawned and compared); distinct = distinct (program, input, mode)",
+    rule: "a corpus of programs (succeeding, failing at parse time on various lines, failing at run time after k lines of output, failing with messages that quote values of 60..5000 characters / elements (ASCII and multi-byte), reading input, printing multi-line strings, building dictionaries, stray break / continue / return at top level followed by further blocks, several lint diagnostics per line in both name orders) x 8 standard-input contents (lines ending in CR LF, empty, one line, several lines, no final newline, non-ASCII, a line that is not valid UTF-8, leading blank lines) x sub-commands exec (separate pipes and stdout+stderr merged into one pipe), lint, parse; plus 14 file forms (a said text of 8 KiB stretches between line breaks, leading blank lines, string constants with backticks, missing final newline, CRLF, byte-order mark, multi-line strings, 3000 lines (more output than a pipe buffer) with and without a final runtime error) under 12 file names (blanks, non-ASCII, NBSP, tab, apostrophe, no / double / upper-case extension, hidden, nested directories, a directory named like an option) x 4 sub-command modes; plus usage errors (unknown sub-command, missing argument, missing file, directory as file) and dictionary programs run as separate processes under 8 hash seeds (LD_PRELOAD getrandom shim); oracle (independent of src/cli): stdout equals what frontend::parser::parse + exec::exec_using write for the same text and input; `parse` prints the pretty Debug tree of the library's parse; `lint` prints one line per library diagnostic (its line and issue) followed by one tab-indented line per suggestion and nothing else; errors go to stderr as `<prefix naming parse/runtime>: <library message>`, on the merged pipe the error line comes after all output, usage errors exit non-zero; non-trivial = every case (a process is spawned and compared); distinct = distinct (program, input, mode)",
     assumptions: &["NO_COLOR=1 for both sides", "exit status after parse / runtime errors and with no arguments at all is observed and reported, not judged (the property does not state it)", "the binaries are rebuilt from /repo by ./check before the run"],
     build,
     exhaustive: true,
 };
 
-pub const STDINS: &[&[u8]] = &[b"", b"one\n", b"one\ntwo\nthree\n", b"one\ntwo", "é ü\nñ\n".as_bytes(), b"ok\n\xff\xfe bad\nlater\n", b"\n\nafter blanks\n"];
+pub const STDINS: &[&[u8]] = &[b"", b"one\n", b"one\ntwo\nthree\n", b"one\ntwo", "é ü\nñ\n".as_bytes(), b"ok\n\xff\xfe bad\nlater\n", b"\n\nafter blanks\n", b"abc\r\ndef\r\nlast\r"];
 
 #[derive(Clone, Debug)]
 pub enum Mode {
@@ -140,7 +140,7 @@ fn corpus_programs(tier: Tier) -> (Vec<String>, usize) {
 }
 
 fn build(tier: Tier) -> Box<dyn Check> {
-    let (programs, first_dict) = corpus_programs(tier);
+    let (mut programs, first_dict) = corpus_programs(tier);
     let n = programs.len();
     let mut modes: Vec<Mode> = Vec::new();
     for i in 0..STDINS.len() {
@@ -152,7 +152,21 @@ fn build(tier: Tier) -> Box<dyn Check> {
     let progs: Space<usize> = Space::of((0..n).collect());
     let general = progs.product(&Space::of(modes), |p, m| (p, m));
     let dicts: Space<usize> = Space::of((first_dict..n).collect());
-    let seeded = dicts.product(&Space::of((0..8u64).map(Mode::Seeded).collect()), |p, m| (p, m));
+    // seeded processes also run texts that exercise process-global tables of the front end: every keyword
+    // and alias cut short by an apostrophe, as operator and as first word
+    let first_trunc = programs.len();
+    for (_, spellings) in crate::refmodel::grammar::ALIASES {
+        for w in spellings.iter() {
+            if w.len() >= 2 && w.chars().all(|c| c.is_ascii_alphabetic()) {
+                let stem = &w[..w.len() - 1];
+                programs.push(format!("say 2 {}' 3\n", stem));
+                programs.push(format!("{}' x\nsay 1\n", stem));
+            }
+        }
+    }
+    let n = programs.len();
+    let truncs: Space<usize> = Space::of((first_trunc..n).collect());
+    let seeded = Space::union(vec![dicts.product(&Space::of((0..8u64).map(Mode::Seeded).collect()), |p, m| (p, m)), truncs.product(&Space::of((0..8u64).map(Mode::Seeded).collect()), |p, m| (p, m))]);
     let dir = std::path::PathBuf::from(crate::engine::orch::verif_dir()).join("target/tmp").join(format!("c20-{}", std::process::id()));
     Box::new(C20 {
         programs: Rc::new(programs),
@@ -167,6 +181,10 @@ fn build(tier: Tier) -> Box<dyn Check> {
             ("non-existent file (parse)", vec!["parse", "/nonexistent-dir/does-not-exist.rock"], true),
             ("directory as file", vec!["exec", "/"], true),
             ("unknown option", vec!["--frobnicate"], true),
+            ("two files, the first missing (exec)", vec!["exec", "/nonexistent-dir/does-not-exist.rock", "@OK"], true),
+            ("two files, the first missing (lint)", vec!["lint", "/nonexistent-dir/does-not-exist.rock", "@OK"], true),
+            ("two files, the first missing (parse)", vec!["parse", "/nonexistent-dir/does-not-exist.rock", "@OK"], true),
+            ("two files, the second missing (exec)", vec!["exec", "@OK", "/nonexistent-dir/does-not-exist.rock"], true),
             ("no arguments at all", vec![], false),
         ],
         dir,
@@ -360,6 +378,13 @@ impl Check for C20 {
         ctx.nontrivial();
         if fam == 1 {
             let (name, args, judged) = &self.usage[idx as usize];
+            // "@OK" stands for an existing, valid program file
+            std::fs::create_dir_all(&self.dir).ok();
+            let ok_path = self.dir.join("usage-ok.rock");
+            std::fs::write(&ok_path, "say 1\n").ok();
+            let ok_s = ok_path.to_string_lossy().into_owned();
+            let args: Vec<&str> = args.iter().map(|a| if *a == "@OK" { ok_s.as_str() } else { *a }).collect();
+            let args = &args;
             match spawn(args, b"", false, None) {
                 Ok(s) => {
                     ctx.observe_str(&format!("{:?}", s.code.map(|c| c != 0)));
